@@ -124,16 +124,19 @@ theorem cauerI_rejects (q : K) (k : Nat) (hk : 2 ≤ k) (hq : q ≠ 0) (rest : L
 
 /-! ## 3. Pattern forms and rejection -/
 
-/-- `seriesRL … seriesRLC`: a returned network has the collected impedance `c0 + cp·x + cm/x` -/
+/-- `seriesRL … seriesRLC`: a returned network has the collected impedance `c0 + cp·x + cm/x`.
+    Guards: `x ≠ 0` and every coefficient of the dictionary is non-zero (`hnz`) -- the elements `C(1/a)`, `G(1/a)` invert
+    them, and with Lean's total division a zero entry would be "realised" by `C(1/0)` for the wrong reason.  `collect`
+    never produces a zero coefficient and neither does the model of it (`collOf_entries_nonzero` in C19Forms.lean). -/
 theorem series_forms_realise (d : Coll K) (x : K) (net : Net K) (hx : x ≠ 0)
     (h : seriesRL d = some (some net) ∨ seriesRC d = some (some net) ∨ seriesGC d = some (some net) ∨
-         seriesLC d = some (some net) ∨ seriesRLC d = some (some net)) :
+         seriesLC d = some (some net) ∨ seriesRLC d = some (some net)) (hnz : d.EntriesNonzero) :
     net.Z x = d.value x := series_forms_value d x (some net) h
 
-/-- `parallelRL … parallelRLC`: a returned network has the collected ADMITTANCE -/
+/-- `parallelRL … parallelRLC`: a returned network has the collected ADMITTANCE (same guards, plus `net.Z x ≠ 0`) -/
 theorem parallel_forms_realise (d : Coll K) (x : K) (net : Net K) (hx : x ≠ 0) (hz : net.Z x ≠ 0)
     (h : parallelRL d = some (some net) ∨ parallelRC d = some (some net) ∨ parallelGC d = some (some net) ∨
-         parallelLC d = some (some net) ∨ parallelRLC d = some (some net)) :
+         parallelLC d = some (some net) ∨ parallelRLC d = some (some net)) (hnz : d.EntriesNonzero) :
     1 / net.Z x = d.value x := parallel_forms_value d x (some net) h
 example : seriesRLC (⟨some 3, some 2, some 5, false⟩ : Coll ℚ) = some (some (.ser (.ser (.R 3) (.C (1 / 5))) (.L 2))) := rfl
 
@@ -153,17 +156,18 @@ theorem reject_missing_element (d : Coll K) :
   · simp [seriesRC, seriesGC, parallelRL, h]
   · simp [seriesLC, parallelLC, h]
 
-/-! ## 4. Foster forms: sums of sections -/
+/-! ## 4. Foster forms.  The synthesis statements are `fosterI_realises_ratfun` / `fosterII_realises_ratfun` in
+     C19Forms.lean (from `N/D` to the network).  Here: two helper lemmas (sections in series / parallel add) and the
+     statement from a CHECKED partial-fraction expansion. -/
 
-/-- **fosterI_realises**: sections in series add their impedances; with sections realising the terms
-    of a partial-fraction expansion that passes `pfCheck` the network realises `B/A` -/
-theorem fosterI_realises (nets : List (Net K)) (net : Net K) (x : K) (h : serAll nets = some net) :
+/-- helper lemma: sections in series add their impedances -/
+theorem serAll_Z (nets : List (Net K)) (net : Net K) (x : K) (h : serAll nets = some net) :
     net.Z x = (nets.map (fun n => n.Z x)).sum := by
   have := Z_serAll nets x
   rw [h] at this; exact this
 
-/-- **fosterII_realises**: sections in parallel add their admittances -/
-theorem fosterII_realises (nets : List (Net K)) (net : Net K) (x : K) (h : parAll nets = some net) :
+/-- helper lemma: sections in parallel add their admittances -/
+theorem parAll_Y (nets : List (Net K)) (net : Net K) (x : K) (h : parAll nets = some net) :
     1 / net.Z x = (nets.map (fun n => 1 / n.Z x)).sum := by
   have := Y_parAll nets x
   rw [h] at this; exact this
@@ -177,7 +181,7 @@ theorem fosterI_realises_terms (B A Q : List K) (poles : List (K × Nat)) (terms
     (hs : nets.map (fun n => n.Z x) = terms.map (fun t => t.1 / (x - t.2.1) ^ t.2.2))
     (h : serAll (qnet :: nets) = some net) :
     net.Z x = Poly.eval B x / Poly.eval A x := by
-  rw [fosterI_realises (qnet :: nets) net x h, pfCheck_sound B A Q poles terms x hc hA]
+  rw [serAll_Z (qnet :: nets) net x h, pfCheck_sound B A Q poles terms x hc hA]
   simp [hq, hs, pfValue]
 
 end Lcapy.C19
